@@ -149,7 +149,7 @@ func c08BuildDual(s *sim.Sim) *c08World {
 		_ = d.Close()
 		_ = w.host.Close()
 	}
-	s.Summary["cfg"] = fmt.Sprintf("client=dual N=%d wan=%d lan=%d Kw=%d aw=%d bw=%d Kl=%d al=%d bl=%d count=%d pool=%d local=%d(%s) tables=%d/%d faults=%d cancelAt=%d",
-		c.N, len(wan), len(lan), sw.k, sw.alpha, sw.beta, sl.k, sl.alpha, sl.beta, c.Count, len(w.pool), len(w.local), localSide, tw, tl, c.FaultLevel, c.CancelAt)
+	s.Summary["cfg"] = fmt.Sprintf("client=dual N=%d wan=%d lan=%d Kw=%d aw=%d bw=%d Kl=%d al=%d bl=%d count=%d pool=%d local=%d(%s) tables=%d/%d faults=%d silent=%d qevents=%v cancelAt=%d",
+		c.N, len(wan), len(lan), sw.k, sw.alpha, sw.beta, sl.k, sl.alpha, sl.beta, c.Count, len(w.pool), len(w.local), localSide, tw, tl, c.FaultLevel, c.Silent, c.QEvents, c.CancelAt)
 	return w
 }
